@@ -1,7 +1,7 @@
 """C03 — GDSII reader and writer agree with the format specification."""
 from checks.gdscommon import same, nontrivial, classify  # noqa
 CONFIG = {
-    "manifest": {'level_text': "Same reader/writer models and the gds_roundtrip theorem as C01, which gives 'every file the writer model emits is read back to the library that was saved' for all libraries; per-record decoding lemmas (16/32/64-bit fields, point lists of any length, strings, properties, STRANS/MAG/ANGLE) are proved for every value in range. Forward direction: streams from an independent specification-level encoder (all element kinds, BOX, path types 0/1/2/4 with extensions, negative widths, AREF with any STRANS, optional ELFLAGS / PLEX / REFLIBS / GENERATIONS / STRCLASS records, arbitrary XY splits, font bits in PRESENTATION) are loaded by read_gds and by the extracted read_gds_model; the encoder's own expectation is the property oracle.", 'level_note': "No strict specification decoder exists in Coq yet: 'every spec-legal stream loads to the layout it encodes' is decided per run on encoder-generated streams (and by the model tie), not by a theorem over all legal serialisations. One defect (WIDTH carried over between PATH elements) was repaired by a fix: commit.", 'technique': 'Coq round-trip theorem over Gallina models of the GDSII reader and writer + byte-for-byte / dump-for-dump differential run + round-trip oracle'},
+    "manifest": {'level_text': "Coq theorem reader_accepts_spec (closed under the global context): for EVERY byte stream accepted by a strict grammar-directed decoder of the GDSII stream format (even record lengths; HEADER BGNLIB LIBNAME {library options} UNITS {structure} ENDLIB; BOUNDARY and BOX, PATH with optional PATHTYPE / WIDTH / BGNEXTN / ENDEXTN, SREF and AREF with optional STRANS [MAG] [ANGLE], TEXT with optional PRESENTATION / PATHTYPE / WIDTH / STRANS, any number of ELFLAGS / PLEX, multi-record XY, PROPATTR/PROPVALUE pairs, closed boundaries) the reader model - a statement-level mirror of read_gds's flat record switch with its mutable state - returns exactly the layout the grammar assigns; plus gds_roundtrip (every library the writer model emits is read back to the library saved) and per-field decoding lemmas for all in-range values. The strict decoder is extracted and run as an independent oracle on every gdstk-written file (writer conformance, per run) and on streams from an independent specification-level encoder; reader and writer models are tied to /repo byte for byte / dump for dump.", 'level_note': "'Every file gdstk writes is accepted by the strict decoder' is validated per run on generated libraries (extracted spec_decode as S-line oracle), not yet proved for all libraries. The grammar is a transcription of the stream format made without the document at hand; MAG/ANGLE are 8-byte patterns (C19). One defect (WIDTH carried over between PATH elements) was repaired by a fix: commit - the theorem would be false of the unfixed reader.", 'technique': "Coq proof that the reader's state machine agrees with a strict grammar decoder on all accepted streams + round-trip theorem + extracted strict decoder as oracle + differential run"},
     "prop_file": "Properties_C03",
     "extract_file": "Extract_Gds",
     "extracted": ["gds"],
